@@ -168,6 +168,10 @@ def r1_identifiers(ctx: Ctx) -> None:
                     checked_local.setdefault(t.value.id, []).append(t.slice.value == t.slice.value.lower())
                 continue
             dyn.append((st, t, sh))
+        from ._tables import table_of
+        # a key looked up in a constant table of lower-case names is a closed, lower-case set: not a user-chosen name
+        dyn = [(st, t, sh) for st, t, sh in dyn
+               if not ((tb := table_of(t.slice, f.module)) is not None and all(isinstance(v, str) and v == v.lower() for v in tb[0].values()))]
         for st, t, sh in dyn:
             sites.append((f, t.slice, st, sh, {c for c, oks in checked_local.items() if all(oks)} | {t2.value.id for _s, t2, _h in dyn if isinstance(t2.value, ast.Name)}))
         for n, e in find(f.node, "V_r['let_bindings'].append((E_k, ANY))"):
@@ -399,19 +403,19 @@ def r6_primitives(ctx: Ctx) -> None:
     proj = ctx.proj
     te, _ = _evals(ctx)
     en = te.methods['_eval_Name']
-    table = _name_return_table(en, 'name')
+    table = _name_return_table(en, 'name', proj=proj)
     for p in PRIMS:
         got = table.get(p)
         ctx.check(got == f'self.ctx.{p}', 'C04.R6', en, f'name:{p}', f'{p} -> self.ctx.{p}', f'bare name {p!r} returns {got!r}, not self.ctx.{p}')
     for lit, val in (('true', 'True'), ('false', 'False')):
         ctx.check(table.get(lit) == val, 'C04.R6', en, f'name:{lit}', f'{lit} -> {val}', f'{lit!r} returns {table.get(lit)!r}')
     ea = te.methods['_eval_Attribute']
-    tt = _name_return_table(ea, 'attr_name')
+    tt = _name_return_table(ea, 'attr_name', proj=proj)
     for p in TXN_ATTRS:
         got = tt.get(p)
         ok = got in (f'self.ctx.{p}', f"getattr(self.ctx, '{p}', '')")
         ctx.check(ok, 'C04.R6', ea, f'txn:{p}', f'txn.{p} -> ctx.{p}', f'txn.{p} returns {got!r}')
-    ft = _name_return_table(ea, 'field_name')
+    ft = _name_return_table(ea, 'field_name', proj=proj)
     for p in FIELD_BUILTINS:
         got = ft.get(p)
         ok = got in (f'self.ctx.{p}', f"getattr(self.ctx, '{p}', '')")
@@ -447,6 +451,11 @@ def r6_primitives(ctx: Ctx) -> None:
             t = s.test
             if isinstance(t, ast.Compare) and len(t.ops) == 1 and isinstance(t.ops[0], ast.In):
                 c = src(t.comparators[0])
+                from ._tables import const_collection
+                if const_collection(t.comparators[0], en.module, en.cls) is not None:
+                    if 'prims' not in order:
+                        order.append('prims')           # primitives dispatched through a constant collection
+                    continue
                 order.append({'self._scope': 'scope', 'self.ctx.variables': 'variables', 'self.ctx.data_sources': 'data_sources'}.get(c, c))
             elif isinstance(t, ast.Compare) and len(t.ops) == 1 and isinstance(t.ops[0], ast.Eq) and isinstance(t.comparators[0], ast.Constant):
                 if 'prims' not in order:
@@ -455,7 +464,7 @@ def r6_primitives(ctx: Ctx) -> None:
               f'name resolution order is {order}')
 
 
-def _name_return_table(m: FuncInfo, var: str = None, within=None) -> Dict[str, str]:
+def _name_return_table(m: FuncInfo, var: str = None, within=None, proj=None) -> Dict[str, str]:
     """{literal: return expression} for every `if <x> == 'literal': return …` under `within` (default: whole method).
     `var` is a *role*: 'name' -> the local assigned from node.id.lower(); 'attr_name' / 'field_name' -> locals assigned from
     node.attr.lower() inside the branch that tests for 'txn' / 'field'.  Local variable names themselves do not matter."""
@@ -472,7 +481,65 @@ def _name_return_table(m: FuncInfo, var: str = None, within=None) -> Dict[str, s
                 and len(n.test.ops) == 1 and isinstance(n.test.ops[0], ast.Eq) and isinstance(n.test.comparators[0], ast.Constant):
             if n.body and isinstance(n.body[0], ast.Return) and n.body[0].value is not None:
                 out.setdefault(n.test.comparators[0].value, src(n.body[0].value))
+    if proj is not None:
+        _table_returns(proj, m, root, out)
     return out
+
+
+def _table_returns(proj, m: FuncInfo, root, out: Dict[str, str]) -> None:
+    """The same table when names are dispatched through constant collections instead of an if-chain:
+         if x in NAMES: return getattr(self.ctx, x[, d])        ->  every member m: self.ctx.m   (getattr(self.ctx, 'm', d) with a default)
+         if x in TABLE: return TABLE[x]                          ->  every key k: repr(TABLE[k])
+         g = TABLE.get(x) / TABLE[x] … return getattr(self.ctx, g)()   ->  every key k: self.ctx.<TABLE[k]>()
+       Membership is read off the branch edges that dominate the return (so `if x not in NAMES: raise` in front counts, and a nested
+       `if x in OPTIONAL:` subtracts)."""
+    from ._tables import const_collection, table_of
+    fl = get_flow(proj, m)
+    inside = {id(n) for n in ast.walk(root)}
+    for r in [s for s in fl.cfg.stmts() if isinstance(s, ast.Return) and s.value is not None and id(s) in inside]:
+        v = r.value
+        call = v.func if isinstance(v, ast.Call) and isinstance(v.func, ast.Call) else v       # getattr(...)() or getattr(...)
+        subj = None
+        if isinstance(call, ast.Call) and isinstance(call.func, ast.Name) and call.func.id == 'getattr' and len(call.args) >= 2 and isinstance(call.args[1], ast.Name):
+            subj = call.args[1].id
+        elif isinstance(v, ast.Subscript) and isinstance(v.slice, ast.Name):
+            subj = v.slice.id
+        if subj is None:
+            continue
+        # a subject that is itself looked up in a table: g = TABLE.get(x)
+        via = None
+        ds = [d for d in fl.cfg.defs_reaching(r, subj) if d != 'param']
+        if len(ds) == 1 and isinstance(fl.cfg.stmt[ds[0]], ast.Assign):
+            tb = table_of(fl.cfg.stmt[ds[0]].value, m.module, m.cls)
+            if tb is not None:
+                via = tb[0]
+        if via is not None:
+            for k_, g_ in via.items():
+                if call is not v:
+                    out.setdefault(k_, f'self.ctx.{g_}()')
+            continue
+        members, minus = None, set()
+        for atom, truth in fl.cfg.guard_atoms(r):
+            if isinstance(atom, ast.Compare) and len(atom.ops) == 1 and isinstance(atom.ops[0], ast.In) and isinstance(atom.left, ast.Name) and atom.left.id == subj:
+                col = const_collection(atom.comparators[0], m.module, m.cls)
+                if col is None:
+                    continue
+                if truth:
+                    members = set(col) if members is None else members & set(col)
+                else:
+                    minus |= set(col)
+        if members is None:
+            continue
+        for c in sorted(members - minus):
+            if isinstance(v, ast.Subscript):
+                tb = table_of(v, m.module, m.cls)
+                if tb is not None and c in tb[0]:
+                    out.setdefault(c, repr(tb[0][c]))
+            elif call is v:
+                if len(call.args) == 2:
+                    out.setdefault(c, f'{src(call.args[0])}.{c}')
+                else:
+                    out.setdefault(c, f"getattr({src(call.args[0])}, '{c}', {src(call.args[2])})")
 
 
 # --------------------------------------------------------------------------- R7
@@ -580,8 +647,8 @@ def r8_reference(ctx: Ctx) -> None:
     for s in ast.walk(ec.methods['__init__'].node):
         if isinstance(s, (ast.Assign, ast.AnnAssign)) and dotted(s.targets[0] if isinstance(s, ast.Assign) else s.target) == 'self.functions' and isinstance(s.value, ast.Dict):
             view_funcs = {k.value for k in s.value.keys if isinstance(k, ast.Constant)}
-    txn_names = set(_name_return_table(te.methods['_eval_Name'], 'name')) | {'txn', 'field'}
-    view_names = set(_name_return_table(ee.methods['_eval_Name'], 'name'))
+    txn_names = set(_name_return_table(te.methods['_eval_Name'], 'name', proj=proj)) | {'txn', 'field'}
+    view_names = set(_name_return_table(ee.methods['_eval_Name'], 'name', proj=proj))
     tables = {}
     for sub in ('show_merchants_reference', 'show_views_reference'):
         f = proj.funcs.get(f'{ref.qualname}.{sub}')
@@ -660,7 +727,7 @@ def _check_primitive_type(ctx, ref, label, prim, text, ec, ee, node) -> None:
     for n in ast.walk(tree):
         if isinstance(n, ast.Compare) and isinstance(n.left, ast.Name) and n.left.id == prim and isinstance(n.comparators[0], ast.Constant) \
                 and isinstance(n.comparators[0].value, (int, float)) and isinstance(n.ops[0], (ast.Lt, ast.LtE, ast.Gt, ast.GtE)):
-            tbl = _name_return_table(ee.methods['_eval_Name'], 'name')
+            tbl = _name_return_table(ee.methods['_eval_Name'], 'name', proj=ctx.proj)
             ret = tbl.get(prim, '')
             if ret.startswith('self.ctx.') and ret.endswith('()'):
                 getter = ec.methods.get(ret[len('self.ctx.'):-2])
